@@ -114,6 +114,7 @@ type interpreter struct {
 	locks           map[*value]*lockState
 	syncMaps        map[*value]*omap
 	counters        map[*value]*int
+	condWaiters     map[*value][]*condWaiter // goroutines parked in (*sync.Cond).Wait, in arrival order
 	symxPkg         *ssa.Package       // verif/symx of the loaded program (virtual file system entry points)
 	fuelStart       int64              // fuel at the start of the current path (symx.Cost)
 	pools           map[*value][]value // sync.Pool model: retained items per pool (LIFO)
